@@ -41,7 +41,7 @@ type Stretched struct {
 	Aligned      string // "", or the boundary a segment start was aligned to (e.g. "2^32+0")
 	Dropped      int    // holes dropped because a 31/32-bit field could not hold the result
 	SegsBeyond4G int    // history segments that start at or beyond 2^32
-	RefsBeyond4G int    // references of the first top-level sidx that start 2^32 or more after its anchor
+	RefsBeyond4G int    // references of top-level sidx boxes that start 2^32 or more after their anchor
 	TfraBeyond4G int    // tfra entries with a moof offset at or beyond 2^32
 	HugeHoles    int    // holes of 2^32-16 bytes or more (64-bit mdat header, no sidx in the file)
 
@@ -160,10 +160,14 @@ func Stretch(b *Built, r *runner.Rand) (*Stretched, error) {
 	// one hole per history segment at most, in a drawn fragment's mdat
 	var hs []Hole
 	all := r.Chance(2, 3)
+	big := r.Chance(1, 2) // mostly holes of 1.5 GiB and more: three of them pass 2^32
 	for si, s := range b.Segs {
 		pick := all || r.Chance(1, 2)
 		gi := s.Frags[r.Intn(len(s.Frags))]
 		n := int64(r.PickInt(1<<30, 1288490189, 1610612736, 1<<31-1<<21, 1<<31-1<<21-r.Intn(1<<20), 1<<30+r.Intn(1<<29)))
+		if big && n < 1610612736 {
+			n = int64(r.PickInt(1610612736, 1<<31-1<<21, 1<<31-1<<22-r.Intn(1<<20)))
+		}
 		mp, ok := mdatPiece[b.Frags[gi].Mdat]
 		if !ok {
 			return nil, fmt.Errorf("fragment %d has no mdat piece", gi)
@@ -250,7 +254,6 @@ func applyHoles(b *Built, holes []Hole) (*Stretched, error) {
 			st.HugeHoles++
 		}
 	}
-	firstTop := true
 	for _, p := range b.Pieces {
 		switch p.Type {
 		case "sidx":
@@ -278,15 +281,12 @@ func applyHoles(b *Built, holes []Hole) (*Stretched, error) {
 				if sz >= 1<<31 {
 					return nil, nil
 				}
-				if p.Role == "top-sidx" && firstTop && rf.Type == 0 && m(at)-anchor >= 1<<32 {
+				if p.Role == "top-sidx" && rf.Type == 0 && m(at)-anchor >= 1<<32 {
 					st.RefsBeyond4G++
 				}
 				w := binary.BigEndian.Uint32(out[refs+12*i:])
 				binary.BigEndian.PutUint32(out[refs+12*i:], w&0x80000000|uint32(sz))
 				at = end
-			}
-			if p.Role == "top-sidx" && len(sx.Refs) > 0 && sx.Refs[0].Type == 0 {
-				firstTop = false
 			}
 		case "mfra":
 			nodes, err := boxwalk.Walk(small[p.Start:p.End()])
